@@ -61,6 +61,38 @@ def e2_jobs(tier: str):
     return J
 
 
+def _comp_outcome(text, mult):
+    """('comp', sorted items) or ('error', exception name) of mod_comp"""
+    from peptacular.chem.chem_calc import mod_comp
+    from peptacular.proforma.proforma_dataclasses import Mod
+    try:
+        return ("comp", sorted(mod_comp(Mod(text, mult)).items()))
+    except ValueError as err:
+        return ("error", type(err).__name__)
+
+
+# generic forms: the composition mod_comp must report (per multiplier 1), None = "has no composition" (an error)
+COMP_FORMS = {
+    "Acetyl": {"C": 2, "H": 2, "O": 1}, "Acetyl|Formula:C2H3": {"C": 2, "H": 2, "O": 1}, "INFO:note|Acetyl": {"C": 2, "H": 2, "O": 1},
+    "INFO:a|Acetyl|INFO:b": {"C": 2, "H": 2, "O": 1}, "Obs:+42.0106|UNIMOD:1|INFO:x": {"C": 2, "H": 2, "O": 1}, "INFO:a|INFO:b|Acetyl": {"C": 2, "H": 2, "O": 1},
+    "INFO:a|Formula:C2H3|Glycan:Hex|Acetyl": {"C": 2, "H": 3}, "+15.5|INFO:b|Formula:O|Acetyl": {"O": 1},
+    "Acetyl#g1": {"C": 2, "H": 2, "O": 1}, "Acetyl#g1(0.75)": {"C": 2, "H": 2, "O": 1}, "#g1": {},
+    "Formula:C2H3": {"C": 2, "H": 3}, "Formula:[13C2]N": {"13C": 2, "N": 1}, "Formula:H-2O": {"H": -2, "O": 1}, "formula:C2H3": {"C": 2, "H": 3},
+    "Glycan:Hex": {"C": 6, "H": 10, "O": 5}, "U:Acetyl": {"C": 2, "H": 2, "O": 1}, "UNIMOD:1": {"C": 2, "H": 2, "O": 1},
+    "+15.5": None, "Obs:+15.5": None, "INFO:x": None, "U:+15.5": None,
+}
+
+
+def comp_form_problems(mult):
+    bad = []
+    for text, want in COMP_FORMS.items():
+        got = _comp_outcome(text, mult)
+        exp = ("comp", sorted((k, v * mult) for k, v in want.items())) if want is not None else None
+        if (exp is None and got[0] != "error") or (exp is not None and got != exp):
+            bad.append(f"mod_comp({text!r} x{mult}) -> {got[1]}, expected {'an error (no composition)' if exp is None else dict(exp[1])}")
+    return bad
+
+
 def _entry_job(cfg) -> Obligation:
     """every spelling of a vocabulary entry resolves to the entry's (symbolic) mass times the multiplier"""
     import z3
@@ -93,6 +125,7 @@ def _entry_job(cfg) -> Obligation:
                 want = (syms[k][0] if mono else syms[k][1])
                 acc = e.id.split(":")[-1]
                 spellings = [n] + [p + n for p in prefixes] + [p + acc for p in prefixes]
+                ref_comp = _comp_outcome(n, mult)
                 for sp in spellings:
                     try:
                         got = mod_mass(Mod(sp, mult), monoisotopic=mono)
@@ -100,6 +133,9 @@ def _entry_job(cfg) -> Obligation:
                         fn.why = f"spelling {sp!r} of entry {n!r} is rejected: {type(err).__name__}"
                         return False
                     props.append(SR.T(got) == SR.T(want) * mult)
+                    if _comp_outcome(sp, mult) != ref_comp:         # the same composition - or the same error - through every spelling
+                        fn.why = f"composition through {sp!r}: {_comp_outcome(sp, mult)} but through the bare name {n!r}: {ref_comp}"
+                        return False
         return z3.And(*props)
 
     fn.why = ""
@@ -107,6 +143,7 @@ def _entry_job(cfg) -> Obligation:
     def replay(model):
         from ..e2lib import native_call
         code = r"""
+from vf.props import c10
 def main(p):
     import peptacular as pt
     from peptacular.proforma.proforma_dataclasses import Mod
@@ -127,6 +164,8 @@ def main(p):
             same = got[0] == ref[0] and (abs(got[1] - ref[1]) <= 1e-5 if got[0] == "value" else got[1] == ref[1])
             if not same:
                 bad.append(f"{sp!r} -> {got[1]} (bare name -> {ref[1]})")
+            if c10._comp_outcome(sp, p["mult"]) != c10._comp_outcome(n, p["mult"]):
+                bad.append(f"composition through {sp!r}: {c10._comp_outcome(sp, p['mult'])[1]} (bare name -> {c10._comp_outcome(n, p['mult'])[1]})")
     return {"violated": bool(bad), "detail": "; ".join(bad[:4])}
 """
         res = native_call(code, {"picks": [("unimod" if db is UNIMOD_DB else "psi", pf, n) for db, pf, n in picks], "mono": mono, "mult": mult})
@@ -211,6 +250,10 @@ def _generic_job(cfg) -> Obligation:
                 props.append(SR.T(M("Acetyl#g1(0.75)")) == SR.T(ac) * mult)
                 props.append(SR.T(M("#g1")) == 0)
                 props.append(SR.T(M(f"+{v}#s2")) == v.t * mult)
+                # the composition side of the same generic forms (concrete: compositions are integer dictionaries)
+                probs = comp_form_problems(mult)
+                if probs:
+                    raise _Rejected("; ".join(probs[:3]))
         return z3.And(*props)
 
     def replay(model):
@@ -238,6 +281,8 @@ def main(p):
             if abs(g - w * mult) > 1e-5: bad.append(f"{t!r} -> {g} expected {w*mult}")
         except ValueError as e:
             bad.append(f"{t!r} -> {type(e).__name__}")
+    from vf.props import c10
+    bad += c10.comp_form_problems(mult)
     return {"violated": bool(bad), "detail": "; ".join(bad[:4])}
 """
         res = native_call(code, {"mono": mono, "mult": mult, "v": model.get("v", 1.5)})
